@@ -156,7 +156,8 @@ def run(ctx, verdict, replay=None, model_ok=True):
         for fmt in srcgen.FORMATS:
             for _ in range(per_fmt):
                 s = srcgen.SrcGen(rng, max_depth=4 if thorough else 3, fmt=fmt,
-                                  features=srcgen.ALL_FEATURES + srcgen.EXTRA_FEATURES + srcgen.FRONTEND_FEATURES).schema("s%03d" % k)
+                                  features=srcgen.ALL_FEATURES + srcgen.EXTRA_FEATURES + srcgen.FRONTEND_FEATURES +
+                                  ("plural_twins", "nullable_named_dunion")).schema("s%03d" % k)
                 k += 1
                 camp.add_schema(s, fmt)
                 plan.append((s["pkg"], s))
